@@ -280,6 +280,28 @@ func (w *World) c20Funcs(r *Report) (position, resolve, initFn, str *ssa.Functio
 	position = w.fn(w.Tok, "(*File).Position")
 	resolve = w.fn(w.Tok, "(*File).ResolvePos")
 	initFn = w.fn(w.Tok, "(*File).init")
+	if initFn == nil {
+		// the table builder under another name (an accessor `lines := f.lineStarts()`): the one method of File that stores File.lines
+		for _, f := range w.ModFns {
+			if fnPkgPath(f) != modRoot+"/token" || f.Signature.Recv() == nil || !isNamed(f.Signature.Recv().Type(), modRoot+"/token", "File") {
+				continue
+			}
+			for _, b := range f.Blocks {
+				for _, in := range b.Instrs {
+					if st, ok := in.(*ssa.Store); ok {
+						if fa, ok := st.Addr.(*ssa.FieldAddr); ok && fieldAddrName(fa) == "lines" && isNamed(fa.X.Type(), modRoot+"/token", "File") {
+							if initFn != nil && initFn != f {
+								initFn = nil
+								goto done
+							}
+							initFn = f
+						}
+					}
+				}
+			}
+		}
+	done:
+	}
 	str = w.fn(w.Tok, "(*Position).String")
 	if position == nil || resolve == nil || initFn == nil || str == nil {
 		r.errorf("token.(*File).Position / ResolvePos / init or (*Position).String not found")
@@ -636,7 +658,12 @@ func ruleC20R4(w *World, r *Report) {
 				construct := "line table built by File.init"
 				phi, ok := st.Val.(*ssa.Phi)
 				if !ok {
-					r.bad(rule, construct, w.pos(st.Pos()), "the stored table is not built by a loop over the lines of the buffer")
+					// the second idiom: a scan with strings.IndexByte from just behind the previous newline
+					if why := w.lineTableByIndexByte(st.Val, recv); why == "" {
+						r.ok(rule, construct, w.pos(st.Pos()), "{0}, then for each strings.IndexByte(Buffer[start:], '\\n') = i >= 0 the offset start+i+1 (the search resumes there), then len(Buffer)+1")
+					} else {
+						r.bad(rule, construct, w.pos(st.Pos()), "the stored table is not built by a loop over the lines of the buffer ("+why+")")
+					}
 					continue
 				}
 				var problems []string
@@ -1023,4 +1050,192 @@ func concatAsFormat(v ssa.Value) (string, []ssa.Value, bool) {
 		return "", nil, false
 	}
 	return format.String(), ops, true
+}
+
+// lineTableByIndexByte: v is
+//
+//	lines := []Pos{0}            (or make([]Pos, 1, …))
+//	for start := 0; ; { i := strings.IndexByte(f.Buffer[start:], '\n'); if i < 0 { break }; start += i + 1; lines = append(lines, Pos(start)) }
+//	append(lines, Pos(len(f.Buffer)+1))
+//
+// — every search begins right behind the newline found last, so no newline is passed over, and each hit adds exactly the
+// offset behind it. "" or what does not fit.
+func (w *World) lineTableByIndexByte(v ssa.Value, recv *ssa.Parameter) string {
+	appended := func(c *ssa.Call) (base, val ssa.Value, ok bool) {
+		bi, isB := c.Call.Value.(*ssa.Builtin)
+		if !isB || bi.Name() != "append" || len(c.Call.Args) != 2 {
+			return nil, nil, false
+		}
+		sl, isS := c.Call.Args[1].(*ssa.Slice)
+		if !isS {
+			return nil, nil, false
+		}
+		al, isA := sl.X.(*ssa.Alloc)
+		if !isA {
+			return nil, nil, false
+		}
+		n := 0
+		for _, u := range referrers(al) {
+			if ia, ok := u.(*ssa.IndexAddr); ok {
+				for _, su := range referrers(ia) {
+					if s2, ok := su.(*ssa.Store); ok && s2.Addr == ssa.Value(ia) {
+						val = s2.Val
+						n++
+					}
+				}
+			}
+		}
+		return c.Call.Args[0], val, n == 1
+	}
+	isBufLen := func(x ssa.Value) bool {
+		c, ok := stripConv(x).(*ssa.Call)
+		if !ok || !isLenCall(c) {
+			return false
+		}
+		f, ok := fieldLoadOf(c.Call.Args[0], recv)
+		return ok && f == "Buffer"
+	}
+	last, ok := v.(*ssa.Call)
+	if !ok {
+		return "the table is not the result of an append"
+	}
+	base, sentinel, ok := appended(last)
+	if !ok {
+		return "the table is not the result of append(lines, one value)"
+	}
+	if x0, k := plusConst(stripConv(sentinel)); k != 1 || !isBufLen(x0) {
+		return "the last entry is not len(Buffer)+1"
+	}
+	lphi, ok := base.(*ssa.Phi)
+	if !ok {
+		return "the entries before the last are not collected in a loop"
+	}
+	var startNext ssa.Value
+	okInit, nApp := false, 0
+	for _, ed := range lphi.Edges {
+		switch x := ed.(type) {
+		case *ssa.MakeSlice:
+			if k, isK := constInt(x.Len); isK && k == 1 {
+				okInit = true // one zero element
+			}
+		case *ssa.Slice:
+			if al, isA := x.X.(*ssa.Alloc); isA {
+				vals, good := 0, true
+				for _, u := range referrers(al) {
+					if ia, ok := u.(*ssa.IndexAddr); ok {
+						for _, su := range referrers(ia) {
+							if s2, ok := su.(*ssa.Store); ok {
+								vals++
+								if k, isC := constInt(s2.Val); !isC || k != 0 {
+									good = false
+								}
+							}
+						}
+					}
+				}
+				okInit = vals == 1 && good
+			}
+		case *ssa.Call:
+			b2, val, ok := appended(x)
+			if !ok || b2 != ssa.Value(lphi) {
+				return "the table is extended by something else than append(lines, one value)"
+			}
+			startNext = stripConv(val)
+			nApp++
+		default:
+			return "unexpected origin of the table"
+		}
+	}
+	if !okInit {
+		return "the table does not start as {0}"
+	}
+	if nApp != 1 {
+		return "not exactly one append in the loop"
+	}
+	// start + i + 1 in any association (`start += i + 1`)
+	var leaves []ssa.Value
+	konst := int64(0)
+	var flat func(x ssa.Value, depth int)
+	flat = func(x ssa.Value, depth int) {
+		x = stripConv(x)
+		if k, isK := constInt(x); isK {
+			konst += k
+			return
+		}
+		if bo, isB := x.(*ssa.BinOp); isB && bo.Op == token.ADD && depth < 4 {
+			flat(bo.X, depth+1)
+			flat(bo.Y, depth+1)
+			return
+		}
+		leaves = append(leaves, x)
+	}
+	flat(startNext, 0)
+	var sphi *ssa.Phi
+	var search *ssa.Call
+	for _, o := range leaves {
+		switch y := o.(type) {
+		case *ssa.Phi:
+			sphi = y
+		case *ssa.Call:
+			search = y
+		}
+	}
+	if len(leaves) != 2 || konst != 1 || sphi == nil || search == nil {
+		return "the appended offset is not start + i + 1 with i the answer of the search"
+	}
+	for _, ed := range sphi.Edges {
+		if k, isK := constInt(ed); isK && k == 0 {
+			continue
+		}
+		if stripConv(ed) != startNext {
+			return "the search does not resume right behind the newline found last"
+		}
+	}
+	sc := search.Call.StaticCallee()
+	if sc == nil || (sc.String() != "strings.IndexByte" && sc.String() != "strings.Index" && sc.String() != "strings.IndexRune") || len(search.Call.Args) != 2 {
+		return "the search is not strings.IndexByte / Index / IndexRune"
+	}
+	if k, isK := constInt(search.Call.Args[1]); isK {
+		if k != '\n' {
+			return "the search is not for a newline"
+		}
+	} else if sv, isS := constString(search.Call.Args[1]); !isS || sv != "\n" {
+		return "the search is not for a newline"
+	}
+	hay, ok := search.Call.Args[0].(*ssa.Slice)
+	if !ok || hay.High != nil || hay.Low == nil || stripConv(hay.Low) != ssa.Value(sphi) {
+		return "the text searched is not Buffer[start:]"
+	}
+	if f, ok := fieldLoadOf(hay.X, recv); !ok || f != "Buffer" {
+		return "the text searched is not a slice of the file's buffer"
+	}
+	// the append is on the found side of `i < 0`, which is the only way out of the loop
+	appBlock := startNext.(ssa.Instruction).Block()
+	guarded := false
+	for d := appBlock; d != nil; d = d.Idom() {
+		p := d.Idom()
+		if p == nil {
+			break
+		}
+		iff, ok := p.Instrs[len(p.Instrs)-1].(*ssa.If)
+		if !ok {
+			continue
+		}
+		bo, ok := iff.Cond.(*ssa.BinOp)
+		if !ok || bo.X != ssa.Value(search) {
+			continue
+		}
+		k, isK := constInt(bo.Y)
+		if !isK {
+			continue
+		}
+		switch {
+		case bo.Op == token.LSS && k == 0 && p.Succs[1] == d, bo.Op == token.GEQ && k == 0 && p.Succs[0] == d, bo.Op == token.EQL && k == -1 && p.Succs[1] == d, bo.Op == token.NEQ && k == -1 && p.Succs[0] == d:
+			guarded = true
+		}
+	}
+	if !guarded {
+		return "the offset is appended without the test that the search found a newline"
+	}
+	return ""
 }
